@@ -226,6 +226,76 @@ theorem constant_propagation_exact (st st' : State) (key : String) (ty : Option 
     rw [(C15.mergeOne_key_type _ _ _).1, hpq]
     simp [PropValue.new, PropValue.value]
 
+/-- **mapping_correct.** For a standard node with any number of outputs: the value stored in the
+    output field `k` is the conversion - under the type of the output Var called `k` - of the raw
+    result the backend listed *under the name `k`* (never of a result listed under another name),
+    provided the evaluator names graph outputs only (it does not echo input names). -/
+theorem mapping_correct (sel : BackendSel) (ctx : NodeCtx) (names : List String) (vals : List RefVal)
+    (res : List (OutVar × Bool))
+    (h : construct Variant.fixed sel .standard ctx (.ret names vals) = .ok res)
+    (hfresh : ∀ o ∈ ctx.outputs, o.value = none)
+    (hin : ∀ n ∈ names, ∀ i ∈ ctx.inputs, i.name ≠ n) :
+    ∀ ow ∈ res, ∀ pv, ow.1.value = some pv →
+      ∃ r t pv', (ow.1.key, r) ∈ names.zip vals ∧
+        (∃ o ∈ ctx.outputs, o.key = ow.1.key ∧ o.type = some t) ∧
+        unwrapFeed sel t r = .ok pv' ∧ pv = PropValue.new pv.type pv'.value := by
+  intro ow how pv hpv
+  unfold construct at h
+  split at h
+  · cases h
+  · rename_i valsD hprop
+    simp only [Except.ok.injEq] at h
+    subst h
+    simp only [merge, List.mem_map] at how
+    obtain ⟨o, ho, rfl⟩ := how
+    rcases C15.mergeOne_value valsD o pv hpv with h1 | ⟨_, _, _, p, hget, hpq⟩
+    · rw [hfresh o ho] at h1; cases h1
+    · rw [(C15.mergeOne_key_type _ valsD o).1]
+      -- where does `valsD` come from?
+      have hsrc : ∃ rs, convertAll sel ctx (dictOf (names.zip vals)) = .ok rs ∧ valsD = keyed rs := by
+        cases sel with
+        | none => simp [propagate, propagateStd] at hprop; subst hprop; simp [dictGet] at hget
+        | reference =>
+          simp only [propagate, propagateStd, propagateOnnx, runCatch] at hprop
+          split at hprop
+          · simp only [Except.ok.injEq] at hprop; subst hprop; simp [dictGet] at hget
+          · split at hprop
+            · simp only [Except.ok.injEq] at hprop; subst hprop; simp [dictGet] at hget
+            · split at hprop
+              · rename_i rs hc
+                simp only [Except.ok.injEq] at hprop
+                exact ⟨rs, hc, hprop.symm⟩
+              · simp only [Variant.fixed, ↓reduceIte, Except.ok.injEq] at hprop
+                subst hprop; simp [dictGet] at hget
+        | onnxruntime =>
+          simp only [propagate, propagateStd, propagateOnnx, runCatch] at hprop
+          split at hprop
+          · simp only [Except.ok.injEq] at hprop; subst hprop; simp [dictGet] at hget
+          · split at hprop
+            · simp only [Except.ok.injEq] at hprop; subst hprop; simp [dictGet] at hget
+            · split at hprop
+              · rename_i rs hc
+                simp only [Except.ok.injEq] at hprop
+                exact ⟨rs, hc, hprop.symm⟩
+              · simp only [Variant.fixed, ↓reduceIte, Except.ok.injEq] at hprop
+                subst hprop; simp [dictGet] at hget
+      obtain ⟨rs, hc, rfl⟩ := hsrc
+      have hmem := mem_dictOf _ _ (dictGet_mem _ _ _ hget)
+      simp only [List.mem_filterMap] at hmem
+      obtain ⟨⟨k0, p0⟩, hk0, hk1⟩ := hmem
+      cases k0 with
+      | none => simp at hk1
+      | some k =>
+        simp only [Option.map_some, Option.some.injEq, Prod.mk.injEq] at hk1
+        obtain ⟨rfl, rfl⟩ := hk1
+        obtain ⟨name, r, ty, pv', hfeed, hlook, hu, hval⟩ := convertAll_mem sel ctx _ rs hc _ _ hk0
+        have hz := mem_dictOf _ _ hfeed
+        have hname : name ∈ names := (List.of_mem_zip hz).1
+        obtain ⟨o', ho', hk', hkk, hty⟩ := scopeLookup_output ctx name _ _ (hin name hname) hlook
+        simp only [Option.some.injEq] at hkk
+        subst hkk
+        exact ⟨r, ty, pv', hz, ⟨o', ho', hk', hty.symm⟩, hu, by rw [hval]; exact hpq⟩
+
 /-! ### the pinned tree -/
 
 /-- Pinned: a Sequence-typed Var ends up with a value that does not conform to its type. -/
